@@ -5,6 +5,7 @@ import (
 	"go/constant"
 	"go/token"
 	"go/types"
+	"sort"
 	"strings"
 
 	"golang.org/x/tools/go/ssa"
@@ -595,7 +596,14 @@ type fsrc struct {
 	Of    ssa.Value
 	Entry ssa.Value
 	Name  string
-	Sub   *subAt // the field is itself a struct assembled in place (nested composite literal): its fields are those at Sub
+	Sub   *subAt    // the field is itself a struct assembled in place (nested composite literal): its fields are those at Sub
+	Alts  []fsrcAlt // the field was assigned on some of the paths into a join: its source per predecessor of Join
+	Join  *ssa.BasicBlock
+}
+
+type fsrcAlt struct {
+	Pred *ssa.BasicBlock
+	Src  fsrc
 }
 
 type subAt struct {
@@ -614,12 +622,19 @@ func (s fsrc) String() string {
 		return "entry(" + describe(s.Entry) + ")." + s.Name
 	case s.Sub != nil:
 		return "struct-in-place"
+	case len(s.Alts) > 0:
+		var as []string
+		for _, a := range s.Alts {
+			as = append(as, a.Src.String())
+		}
+		sort.Strings(as)
+		return "phi{" + strings.Join(as, "|") + "}"
 	}
 	return "unknown"
 }
 
 func (s fsrc) same(t fsrc) bool {
-	return s.Val == t.Val && s.Of == t.Of && s.Entry == t.Entry && (s.Val != nil || s.Of != nil || s.Entry != nil)
+	return s.Val == t.Val && s.Of == t.Of && s.Entry == t.Entry && (s.Val != nil || s.Of != nil || s.Entry != nil) && len(s.Alts) == 0 && len(t.Alts) == 0
 }
 
 func structOf(t types.Type) *types.Struct {
@@ -688,6 +703,19 @@ func fieldsAt(addr ssa.Value, b *ssa.BasicBlock, idx int, depth int) map[string]
 				}
 				return out
 			}
+			if v, isV := in.(ssa.Value); isV && v == addr {
+				if _, isAlloc := in.(*ssa.Alloc); isAlloc {
+					// the variable comes into being here, zeroed
+					for _, f := range missing() {
+						for k := 0; k < st.NumFields(); k++ {
+							if st.Field(k).Name() == f {
+								out[f] = fsrc{Val: zeroConst(st.Field(k).Type())}
+							}
+						}
+					}
+					return out
+				}
+			}
 		}
 		if len(b.Preds) == 0 {
 			for _, f := range missing() {
@@ -698,11 +726,43 @@ func fieldsAt(addr ssa.Value, b *ssa.BasicBlock, idx int, depth int) map[string]
 		if len(b.Preds) != 1 {
 			// join: continue at the immediate dominator when nothing in between may write the location
 			d := b.Idom()
-			if d == nil || writtenBetween(d, b, addr) {
+			if d == nil {
 				for _, f := range missing() {
 					out[f] = fsrc{Name: f}
 				}
 				return out
+			}
+			if writtenBetween(d, b, addr) {
+				// some fields are assigned on some of the paths: those get one source per predecessor (a "phi"); a whole
+				// store, an escape or a loop in between makes everything unknown
+				wf, simple := fieldsWrittenBetween(d, b, addr)
+				if !simple || depth > 3 {
+					for _, f := range missing() {
+						out[f] = fsrc{Name: f}
+					}
+					return out
+				}
+				for _, f := range missing() {
+					if !wf[f] {
+						continue
+					}
+					var alts []fsrcAlt
+					for _, p := range b.Preds {
+						sub := fieldsAt(addr, p, len(p.Instrs), depth+1)
+						alts = append(alts, fsrcAlt{p, sub[f]})
+					}
+					same := len(alts) > 0
+					for _, a := range alts[1:] {
+						if !a.Src.same(alts[0].Src) {
+							same = false
+						}
+					}
+					if same {
+						out[f] = alts[0].Src
+					} else {
+						out[f] = fsrc{Alts: alts, Join: b, Name: f}
+					}
+				}
 			}
 			b = d
 			i = len(b.Instrs) - 1
@@ -873,4 +933,53 @@ func canonCall(c *ssa.Call) (string, map[int]int) {
 		}
 	}
 	return name, out
+}
+
+// zeroConst: the zero value of t as an SSA constant (nil for types whose zero value go/ssa writes as a nil constant).
+func zeroConst(t types.Type) ssa.Value {
+	switch u := t.Underlying().(type) {
+	case *types.Basic:
+		switch {
+		case u.Info()&types.IsBoolean != 0:
+			return ssa.NewConst(constant.MakeBool(false), t)
+		case u.Info()&types.IsString != 0:
+			return ssa.NewConst(constant.MakeString(""), t)
+		case u.Info()&types.IsNumeric != 0:
+			return ssa.NewConst(constant.MakeInt64(0), t)
+		}
+	}
+	return ssa.NewConst(nil, t)
+}
+
+// fieldsWrittenBetween: the fields of the struct at addr that blocks strictly between d and b assign; simple is false when
+// one of those blocks may write the struct in any other way (whole store, call that could reach it) or sits on a cycle.
+func fieldsWrittenBetween(d, b *ssa.BasicBlock, addr ssa.Value) (map[string]bool, bool) {
+	out := map[string]bool{}
+	simple := true
+	for _, x := range d.Parent().Blocks {
+		if x == d || x == b || !d.Dominates(x) || !reachesAvoiding(x, b, nil, nil) {
+			continue
+		}
+		if b.Dominates(x) || inCycle(x) {
+			simple = false
+		}
+		for _, in := range x.Instrs {
+			if st, ok := in.(*ssa.Store); ok {
+				if fa, ok := st.Addr.(*ssa.FieldAddr); ok && fa.X == addr {
+					out[fieldName(fa)] = true
+					continue
+				}
+				if fa2, ok := st.Addr.(*ssa.FieldAddr); ok {
+					if fa1, ok := fa2.X.(*ssa.FieldAddr); ok && fa1.X == addr {
+						out[fieldName(fa1)] = true
+						continue
+					}
+				}
+			}
+			if mayWriteCell(in, addr) {
+				simple = false
+			}
+		}
+	}
+	return out, simple
 }
